@@ -305,5 +305,7 @@ def write_replay(prop: str, payload: dict) -> Path:
 
 
 def write_evidence(prop: str, ev: dict) -> None:
-    EVIDENCE.mkdir(exist_ok=True)
-    (EVIDENCE / f'{prop}.json').write_text(json.dumps(ev, indent=1, default=str) + '\n')
+    # a run against a scratch copy (VERIF_REPO, used by harness/seed_test.py) is not evidence about /repo
+    d = EVIDENCE if not os.environ.get('VERIF_REPO') else VERIF / 'replays' / 'scratch_evidence'
+    d.mkdir(parents=True, exist_ok=True)
+    (d / f'{prop}.json').write_text(json.dumps(ev, indent=1, default=str) + '\n')
